@@ -69,6 +69,8 @@ fn start_testing_server(rt: &tokio::runtime::Runtime) -> kvarn_testing::Server {
 fn kind(k: &str) -> (&'static str, &'static str, Vec<(&'static str, &'static str)>, Option<Vec<u8>>) {
     match k {
         "get" => ("GET", "/hello", vec![], None),
+        // many small header fields: a few KiB on the HTTP/1.1 wire, far more by HTTP/2's per-field accounting (32 bytes a field)
+        "manyfields" => ("GET", "/hello", MANY_FIELDS.iter().map(|(n, v)| (n.as_str(), *v)).collect(), None),
         "cookies" => ("GET", "/cookies", vec![], None),
         "headcookies" => ("HEAD", "/cookies", vec![("accept-encoding", "gzip")], None),
         "head" => ("HEAD", "/hello", vec![], None),
@@ -95,7 +97,8 @@ fn kind(k: &str) -> (&'static str, &'static str, Vec<(&'static str, &'static str
         _ => unreachable!("{k}"),
     }
 }
-const KINDS: [&str; 24] = ["cookies", "headcookies", "post20k", "post20k1", "post50k", "post200k", "get", "head", "getgz", "getbr", "headgz", "uncached", "empty", "missing", "headmissing", "range", "range416", "unsafe", "png406", "cors", "options", "post", "postbig", "put"];
+static MANY_FIELDS: std::sync::LazyLock<Vec<(String, &'static str)>> = std::sync::LazyLock::new(|| (0..450).map(|i| (format!("x-h-{i:03}"), "v")).collect());
+const KINDS: [&str; 25] = ["manyfields", "cookies", "headcookies", "post20k", "post20k1", "post50k", "post200k", "get", "head", "getgz", "getbr", "headgz", "uncached", "empty", "missing", "headmissing", "range", "range416", "unsafe", "png406", "cors", "options", "post", "postbig", "put"];
 
 pub struct Pair {
     rt: tokio::runtime::Runtime,
